@@ -288,6 +288,9 @@ func setPtraceOption(pid int) error {
 // kill all tracee according to pids
 func killAll(pgid int) {
 	unix.Kill(-pgid, unix.SIGKILL)
+	// the process group only exists once the child has called setsid: until then
+	// kill(-pgid) fails with ESRCH and a cancellation would be lost
+	unix.Kill(pgid, unix.SIGKILL)
 }
 
 // collect died child processes
